@@ -970,16 +970,31 @@ class C20(Prop):
       if tree is None:
         return None
       wire_opts = {k: o[k] for k in MODEL_OPTS}
+
+      def wire_pred(pred):
+        if 'paths' in pred:
+          return {'paths': [[key_wire(k) for k in q] for q in pred['paths']]}
+        if 'not' in pred:
+          return {'not': wire_pred(pred['not'])}
+        if 'or' in pred:
+          return {'or': [wire_pred(q) for q in pred['or']]}
+        return pred
+
+      for f, g, dflt in (('include_keys', 'include_p', None), ('exclude_keys', 'exclude_p', None),
+                         ('key_style', 'key_style_p', 'summary'), ('uncollapse', 'uncollapse_p', [])):
+        if is_pred(o[f]):
+          wire_opts[g] = wire_pred(o[f]['pred'])
+          wire_opts[f] = dflt
       for f in ('highlight', 'lowlight'):
         wire_opts[f] = [] if o[f] is None else [[key_wire(k) for k in q] for q in o[f]['pred']['paths']]
       for f in ('key_color', 'summary_color'):
         wire_opts[f] = None if o[f] is None else [None if x is None else cps(x) for x in o[f]]
       wire_opts['title'] = None if o['title'] is None else cps(o['title'])
       wire_opts['css_classes'] = [cps(x) for x in (o['css_classes'] or [])]
-      wire_opts['uncollapse'] = [[key_wire(k) for k in p] for p in o['uncollapse']]
+      wire_opts['uncollapse'] = [[key_wire(k) for k in p] for p in wire_opts['uncollapse']]
       wire_opts['name'] = None if o['name'] is None else key_wire(o['name'])
       for f in ('include_keys', 'exclude_keys'):
-        wire_opts[f] = None if o[f] is None else [key_wire(k) for k in o[f]]
+        wire_opts[f] = None if wire_opts[f] is None else [key_wire(k) for k in wire_opts[f]]
       return {'op': 'render', 'opts': wire_opts, 'tree': tree}
     if op == 'control':
       return self._control_request(case)
@@ -1053,13 +1068,26 @@ class C20(Prop):
 
   @staticmethod
   def modelled(o):
-    """Is this option record inside the Lean model? Callable options other than path-set
-    highlight / lowlight filters, child_config, extra_flags and debug are checked by the oracle only."""
+    """Is this option record inside the Lean model? child_config, extra_flags, debug, callable colours
+    and filters that look at the value's type are checked by the oracle only."""
     o = full_opts(o)
     if o['child_config'] is not None or o['extra_flags'] is not None or o['debug']:
       return False
-    if any(is_pred(o[k]) for k in MODEL_OPTS + ('key_color', 'summary_color')):
+    if any(is_pred(o[k]) for k in ('key_color', 'summary_color')):
       return False
+
+    def path_only(pred):
+      if 'type' in pred:
+        return False
+      if 'not' in pred:
+        return path_only(pred['not'])
+      if 'or' in pred:
+        return all(path_only(q) for q in pred['or'])
+      return True
+
+    for f in ('include_keys', 'exclude_keys', 'key_style', 'uncollapse'):
+      if is_pred(o[f]) and not path_only(o[f]['pred']):
+        return False
     for f in ('highlight', 'lowlight'):
       if o[f] is not None and set(o[f]['pred']) != {'paths'}:
         return False
